@@ -346,7 +346,7 @@ func TestSelect(t *testing.T) {
 
 // Op is one file operation performed by the checker.
 type Op struct {
-	Kind string `json:"kind"` // write | chmod | remove | rename
+	Kind string `json:"kind"` // write | chmod | remove | rename | create (a new, empty file in the observed directory drop)
 	File string `json:"file"`
 }
 
@@ -365,7 +365,7 @@ var evFiles = []string{"src/w1", "src/w1.go", "src/w2.go", "src/ex.go", "other.t
 // observedEv: the files the watcher's patterns select (src/w*, src/*.go minus src/ex*, the dot-file .w* and the
 // content of the dot-directory .cfg)
 func observedEv(f string) bool {
-	return strings.HasPrefix(f, "src/w") || strings.HasPrefix(f, ".w") || strings.HasPrefix(f, ".cfg/")
+	return strings.HasPrefix(f, "src/w") || strings.HasPrefix(f, ".w") || strings.HasPrefix(f, ".cfg/") || strings.HasPrefix(f, "drop/")
 }
 
 func runEvents(c EvCase, dir string, scale int) (err error, timing bool) {
@@ -374,6 +374,7 @@ func runEvents(c EvCase, dir string, scale int) (err error, timing bool) {
 	os.MkdirAll(home, 0o755)
 	os.MkdirAll(filepath.Join(tree, "src"), 0o755)
 	os.MkdirAll(filepath.Join(tree, ".cfg"), 0o755)
+	os.MkdirAll(filepath.Join(tree, "drop"), 0o755) // observed as a directory: what happens to its entries are its events
 	for _, f := range evFiles {
 		os.WriteFile(filepath.Join(tree, f), []byte("x"), 0o644)
 	}
@@ -389,7 +390,7 @@ func runEvents(c EvCase, dir string, scale int) (err error, timing bool) {
 	os.Remove(log)
 	cfg := gen.Map{
 		{K: "tasks", V: gen.Map{{K: "t", V: gen.Map{{K: "command", V: fmt.Sprintf("printf 'EV %%s %%s\\n' \"$EventName\" \"$EventPath\" >> %s", log)}}}}},
-		{K: "watchers", V: gen.Map{{K: "w", V: gen.Map{{K: "watch", V: gen.List{"src/w*", "src/*.go", ".w*", ".cfg/*"}}, {K: "exclude", V: gen.List{"src/ex*"}}, {K: "events", V: toList(c.Sub)}, {K: "task", V: "t"}}}}},
+		{K: "watchers", V: gen.Map{{K: "w", V: gen.Map{{K: "watch", V: gen.List{"src/w*", "src/*.go", ".w*", ".cfg/*", "drop"}}, {K: "exclude", V: gen.List{"src/ex*"}}, {K: "events", V: toList(c.Sub)}, {K: "task", V: "t"}}}}},
 	}
 	os.WriteFile(filepath.Join(tree, "w.yaml"), []byte(gen.YAML(cfg)), 0o644)
 	cmd := exec.Command(drv.Bin(), "-c", "w.yaml", "watch", "w")
@@ -444,6 +445,10 @@ func runEvents(c EvCase, dir string, scale int) (err error, timing bool) {
 			os.Remove(p)
 		case "rename":
 			os.Rename(p, p+".moved")
+		case "create":
+			if f, e := os.OpenFile(p, os.O_CREATE|os.O_EXCL|os.O_WRONLY, 0o644); e == nil {
+				f.Close()
+			}
 		}
 		observed := observedEv(o.File)
 		expect := observed && subscribed[o.Kind]
@@ -519,7 +524,18 @@ func TestEvents(t *testing.T) {
 			}
 		}
 		gone := map[string]bool{}
+		created := 0
 		for i := rapid.IntRange(1, 6).Draw(rt, "nops"); i > 0; i-- {
+			if rapid.IntRange(0, 4).Draw(rt, "new-file") == 0 {
+				// a new file appears in the observed directory; mostly the next operation is on that file
+				created++
+				nf := fmt.Sprintf("drop/n%d", created)
+				c.Ops = append(c.Ops, Op{"create", nf})
+				if next := rapid.SampledFrom([]string{"write", "write", "chmod", "remove", ""}).Draw(rt, "then"); next != "" {
+					c.Ops = append(c.Ops, Op{next, nf})
+				}
+				continue
+			}
 			f := rapid.SampledFrom([]string{"src/w1", "src/w1.go", "src/w1.go", "src/w2.go", "src/ex.go", "other.txt", ".wenv", ".cfg/w3"}).Draw(rt, "file")
 			kind := rapid.SampledFrom([]string{"write", "write", "chmod", "chmod", "remove", "rename"}).Draw(rt, "kind")
 			if gone[f] {
